@@ -23,11 +23,13 @@ HARNESSES = [
     H("c21_roundtrip_6a", 40, RT, "|s|=6 (the inline limit), symbolic bytes at 0,5"),
     H("c21_roundtrip_6b", 40, RT, "|s|=6, symbolic bytes at 2,3", tiers=T),
     H("c21_roundtrip_6c", 40, RT, "|s|=6, symbolic bytes at 4,5", tiers=T),
-    H("c21_order_1", 40, "atoms differing in one byte are distinct and ordered bytewise", "|s|=1"),
+    H("c21_order_1", 400, "atoms differing in one byte are distinct and ordered bytewise", "|s|=1",
+      tiers=T, timeout=3600),
     H("c21_order_3", 60, "same", "|s|=3, position 1", tiers=T),
-    H("c21_order_6_first", 120, "same", "|s|=6, position 0", timeout=1500),
+    H("c21_order_6_first", 900, "same", "|s|=6, position 0", tiers=T, timeout=3600),
     H("c21_order_6_last", 120, "same", "|s|=6, position 5", tiers=T, timeout=1500),
-    H("c21_prefix_is_smaller", 60, "a proper prefix is a different, smaller atom", "|s|=2 vs 3"),
+    H("c21_prefix_is_smaller", 400, "a proper prefix is a different, smaller atom", "|s|=2 vs 3",
+      tiers=T, timeout=3600),
     H("c21_char_atom", 60, "new_char_inlined(c) = atom of the one-char text; NUL -> static atom",
       "every Unicode scalar value"),
     H("c21_atom_cell_packing", 20, "AtomCell::build_with/get_name/get_arity lossless",
@@ -41,7 +43,8 @@ ENCODED = ["Atom::new_inlined", "AtomCell::new_inlined", "AtomCell::new_char_inl
            "Atom::len", "<Atom as Ord>::cmp", "generated atom! table (static_atoms.rs)"]
 ASSUME = ["texts are ASCII non-NUL with 1-2 symbolic byte positions per harness on a fixed "
           "template (more symbolic bytes do not finish, DESIGN P23)",
-          "S1: arcu thread-local epoch counter stub where as_str is reached"]
+          "S1: arcu thread-local epoch counter stub where as_str is reached",
+          "quick tier: the order of atoms rests on the MIR fact Atom::cmp = str::cmp(as_str(a), as_str(b)) plus the K round trip; the direct K order harnesses (symbolic-length memcmp, slow) are thorough-only"]
 BOUNDS = "lengths 1..6; every scalar value for char atoms; every 49-bit index for cell packing"
 OUTSIDE = ("interned (dynamic) atoms: IndexSet + RCU + locks; AtomTable::build_with's inline test "
            "(read only through the static table check); atom-producing builtins")
